@@ -545,6 +545,54 @@ def keyfile_history_stream(ctx, res):
                 reload_check(s, cfg, now, want, {"stream": "key-history", "history": "saved-key-replaced-saved-again", "how": how, "method": method, "config_type": typed})
 
 
+def untyped_values_stream(ctx, res):
+    """positions no typed field converts on load — an AnyField, items of untyped lists and dicts, extra fields of a dynamic
+    configuration, the same inside items of a configuration list — holding every confusable scalar (negative and large integers,
+    booleans, floats that look like integers, numeric and boolean text, null, empty containers): every format gives back the same
+    value with the same type"""
+    import cincoconfig as cc
+    from protocol import canon_sorted
+    scalars = [True, False, 1, 0, -1, -4, -(2 ** 40), 2 ** 62, 1.0, -0.5, -3.0, 1e300, "1", "-4", "+4", "1.0", "true", "False", "none", "", " ", " lead", "trail ", "a\nb",
+               None, [], {}, "1e5", "0x10", "é"]
+    item = cc.Schema()
+    item.label = cc.StringField(default="l")
+    item.anything = cc.Field()
+    item.raw = cc.ListField(default=lambda: [])
+    s = cc.Schema(dynamic=True)
+    s.anything = cc.Field()
+    s.raw_list = cc.ListField(default=lambda: [])
+    s.raw_dict = cc.DictField(default=lambda: {})
+    s.items = cc.ListField(item, default=lambda: [])
+    s.sub.anything = cc.Field()
+    for i in range(0, len(scalars), 3):
+        chunk = scalars[i:i + 3]
+        cfg = s()
+        cfg.anything = chunk[0]
+        cfg.raw_list = list(chunk) + [list(chunk)]
+        cfg.raw_dict = {"k%d" % j: v for j, v in enumerate(chunk)}
+        cfg.raw_dict["nested"] = {"inner": chunk[-1], "list": list(chunk)}
+        cfg.sub.anything = chunk[-1]
+        cfg.extra_field = chunk[0]
+        cfg.items = [{"label": "a"}]
+        cfg.items[0].anything = chunk[1 % len(chunk)]
+        cfg.items[0].raw = list(chunk)
+        tree = cfg.to_tree()
+        for fmt in FORMATS:
+            if not in_domain(fmt, tree):
+                continue
+            case = {"stream": "untyped-values", "fmt": fmt, "values": F.enc_val(chunk)}
+            res.case(stable(case), kind="untyped-values:" + fmt)
+            fresh = s()
+            try:
+                fresh.loads(cfg.dumps(format=fmt), format=fmt)
+                back = fresh.to_tree()
+            except Exception as e:  # noqa
+                back = "raised %s: %s" % (type(e).__name__, str(e)[:80])
+            if isinstance(back, str) or canon_sorted(back) != canon_sorted(tree):
+                res.violate("C02:reload-differs:untyped-position", "a value in a position no typed field converts does not come back with the same value and type",
+                            dict(case, saved=repr(tree)[:300], reloaded=repr(back)[:300]))
+
+
 def P_plain(v):
     from cincoconfig.core import Config
     import cincoconfig as cc
@@ -563,6 +611,7 @@ def run(ctx, n_quick=400, n_thorough=6000):
     guard(res, "C02", env_empty_stream, ctx, res, ctx.n(3, 40))
     guard(res, "C02", container_stream, ctx, res, ctx.n(40, 1200))
     guard(res, "C02", keyfile_history_stream, ctx, res)
+    guard(res, "C02", untyped_values_stream, ctx, res)
     P.run_stream(ctx, res, "C02", ctx.n(n_quick, n_thorough), oracle, gen_ops=gen_ops, ops_len=(3, 10),
                  schema_opts={"virtual": True}, label="save-reload")
     replies = ctx.model([r for _, _, r in PENDING])
